@@ -23,6 +23,7 @@ pub fn dispatch(ctx: &Ctx) -> i32 {
         "C19" => specs::check(ctx),
         "C09" => avsync::check(ctx),
         "C17" => determinism::check(ctx),
+        "C20" => cli::check(ctx),
         "C11" => frag::check(ctx, "C11"),
         "C06" => contract::check(ctx, contract::Which::C06),
         p => {
@@ -38,6 +39,9 @@ pub fn replay(prop: &str, case: &serde_json::Value) -> i32 {
     }
     if prop == "C17" {
         return determinism::replay(case);
+    }
+    if prop == "C20" {
+        return cli::replay(case);
     }
     match case["engine"].as_str() {
         Some("E1") => e1::replay(prop, case),
@@ -68,6 +72,7 @@ pub mod meta;
 pub mod specs;
 pub mod avsync;
 pub mod determinism;
+pub mod cli;
 
 use oracle::report::{Meta, Tally};
 
